@@ -41,7 +41,7 @@ def main():
     checks = (a.checks.split(',') if a.checks else [pid])
     meta = dict(property=pid, name=name, checks_run=checks, tier=a.tier, at=time.strftime('%Y-%m-%dT%H:%M:%SZ', time.gmtime()))
     env = {'PYTHONPATH': wt}
-    if not a.skip_confirm:
+    if not a.skip_confirm and os.path.isdir(wt):
         rc1, out1 = sh('timeout 120 /venv/bin/python %s/demo.py' % seed, cwd=wt, env=env)
         rc_t, out_t = sh('timeout 900 /venv/bin/python -m pytest -q -p no:cacheprovider 2>&1 | tail -1', cwd=wt, env=env)
         # (not `git stash`: the stash is shared by all worktrees of a repository)
@@ -59,14 +59,22 @@ def main():
         print('confirm: demo with change exit=%d, without=%d, tests: %s -> %s' % (rc1, rc0, out_t.strip()[-40:], 'OK' if ok else 'NOT CONFIRMED'))
         if not ok:
             print(out1[-600:])
-    rc, patch = sh('git diff', cwd=wt)
     dst = os.path.join('/verif/seeded', name)
-    os.makedirs(dst, exist_ok=True)
-    with open(os.path.join(dst, 'patch.diff'), 'w') as f:
-        f.write(patch)
-    for fn in ('demo.py', 'notes.md'):
-        if os.path.exists(os.path.join(seed, fn)):
-            shutil.copy(os.path.join(seed, fn), dst)
+    if os.path.isdir(wt):
+        rc, patch = sh('git diff', cwd=wt)
+        os.makedirs(dst, exist_ok=True)
+        with open(os.path.join(dst, 'patch.diff'), 'w') as f:
+            f.write(patch)
+        for fn in ('demo.py', 'notes.md'):
+            if os.path.exists(os.path.join(seed, fn)):
+                shutil.copy(os.path.join(seed, fn), dst)
+    else:
+        # re-evaluation of a stored change (the scratch worktree is gone): keep the recorded confirmation
+        old = json.load(open(os.path.join(dst, 'meta.json')))
+        for k in ('confirm', 'confirmed'):
+            if k in old:
+                meta[k] = old[k]
+        meta['history'] = old.get('history', []) + [dict(at=old.get('at'), detected_by=old.get('detected_by'), checks_run=old.get('checks_run'))]
     # run the checks against the change
     rc, st = sh('git status --porcelain --untracked-files=no', cwd='/repo')
     if st.strip():
